@@ -526,3 +526,187 @@ func (c *Ctx) orderedBefore(u *FuncUnit, call *ast.CallExpr, a, b *types.Var) st
 	})
 	return found
 }
+
+// R39 SCANEXIT (C02, C03, C04) – a stack traversal leaves its loop only because the stack is
+// empty, because yield returned false, or (range scan) because a key is above the upper bound.
+// R40 PREFIXRET (C04) – Prefix hands out either the filtering scan or, for the empty prefix, All().
+func ruleR39R40(c *Ctx) {
+	info := c.m.Info
+	m := c.m
+	nLoops := 0
+	for _, u := range c.seqLiterals() {
+		loops := c.worklistLoops(u)
+		if len(loops) == 0 {
+			continue
+		}
+		nLoops++
+		props := c.attribute(u, "C02", "C03", "C04", "C05", "C08", "C09")
+		g := m.cfgOf(u)
+		guards := guardsOf(info, g)
+		yv, _ := info.Defs[u.Type.Params.List[0].Names[0]].(*types.Var)
+		// allowed reasons to leave: edges (block, succ)
+		type edge struct {
+			b    *cfg.Block
+			succ int
+			why  string
+		}
+		var allowed []edge
+		for _, gd := range guards {
+			e := ast.Unparen(gd.atom.e)
+			// yield returned false
+			if call, ok := e.(*ast.CallExpr); ok && identVar(info, call.Fun) == yv && !gd.atom.val {
+				allowed = append(allowed, edge{gd.b, gd.succ, "yield returned false"})
+			}
+			// empty tree
+			if be, ok := e.(*ast.BinaryExpr); ok {
+				if sel, ok := ast.Unparen(be.X).(*ast.SelectorExpr); ok && sel.Sel.Name == "pointer" && info.Types[be.Y].IsNil() {
+					if (be.Op == token.EQL && gd.atom.val) || (be.Op == token.NEQ && !gd.atom.val) {
+						allowed = append(allowed, edge{gd.b, gd.succ, "empty tree"})
+					}
+				}
+				// key above the upper bound: Compare(key, bound) > 0 true edge (roles checked by R13)
+				if cc, ok := ast.Unparen(be.X).(*ast.CallExpr); ok && m.calleeName(cc) == "bytes.Compare" && be.Op == token.GTR && gd.atom.val {
+					allowed = append(allowed, edge{gd.b, gd.succ, "key above the upper bound"})
+				}
+			}
+		}
+		for _, b := range g.Blocks {
+			if b.Kind == cfg.KindForLoop && len(b.Succs) == 2 {
+				allowed = append(allowed, edge{b, 1, "stack empty"})
+			}
+		}
+		for _, b := range g.Blocks {
+			if !b.Live || len(b.Succs) != 0 || isPanicBlock(info, b) {
+				continue
+			}
+			pos := u.Lit.End()
+			if len(b.Nodes) > 0 {
+				pos = b.Nodes[len(b.Nodes)-1].Pos()
+			}
+			why := ""
+			for _, e := range allowed {
+				if edgeDominates(g, e.b, e.succ, b) {
+					why = e.why
+					break
+				}
+			}
+			// the function's final fall-off block is reached from several allowed edges: accept if
+			// every predecessor path crosses one of them, i.e. removing ALL allowed edges makes it unreachable
+			if why == "" {
+				seen := make([]bool, len(g.Blocks))
+				var dfs func(x *cfg.Block) bool
+				dfs = func(x *cfg.Block) bool {
+					if x == b {
+						return true
+					}
+					if seen[x.Index] {
+						return false
+					}
+					seen[x.Index] = true
+					for i, s := range x.Succs {
+						skip := false
+						for _, e := range allowed {
+							if e.b == x && e.succ == i {
+								skip = true
+							}
+						}
+						if skip {
+							continue
+						}
+						if dfs(s) {
+							return true
+						}
+					}
+					return false
+				}
+				if !dfs(g.Blocks[0]) {
+					why = "every path to it crosses an allowed exit edge"
+				}
+			}
+			key := fmt.Sprintf("%s scan ends only when exhausted or stopped", u.Name)
+			if why != "" {
+				c.r.ok("R39", key, m.pos(pos), why, props...)
+			} else {
+				c.r.bad("R39", key, m.pos(pos), "the traversal can end although the stack is not empty, yield did not return false and no key above the upper bound was seen: the remaining keys are never delivered", props...)
+			}
+		}
+	}
+	if nLoops < 3 {
+		c.r.undecided("R39", "coverage-floor stack traversals", "tree.go", fmt.Sprintf("only %d stack traversals recognised", nLoops), "C02")
+	}
+	// ---- R40
+	for _, tk := range m.Trees {
+		u := tk.Methods["Prefix"]
+		if u == nil {
+			continue
+		}
+		props := []string{"C04"}
+		if isCollationKind(tk) {
+			props = append(props, "C08")
+		}
+		fl := c.e.flow(u)
+		n := 0
+		for _, b := range fl.g.Blocks {
+			if !b.Live || fl.in[b.Index] == nil {
+				continue
+			}
+			for k, nd := range b.Nodes {
+				rs, ok := nd.(*ast.ReturnStmt)
+				if !ok || len(rs.Results) != 1 {
+					continue
+				}
+				n++
+				key := tk.Name + ".Prefix result is the filtering scan"
+				call, isCall := ast.Unparen(rs.Results[0]).(*ast.CallExpr)
+				name := ""
+				if isCall {
+					name = m.calleeName(call)
+				}
+				switch {
+				case name == "filter":
+					c.r.ok("R40", key, m.pos(rs.Pos()), "filter(subtree, hasPrefix, restoreKey)", props...)
+				case strings.HasSuffix(name, ".All") || name == "all":
+					// only for the empty prefix
+					fs := fl.setBefore(b, k)
+					empty := false
+					for _, f := range fs.lins() {
+						_ = f
+					}
+					// fact len(p) == 0: two linear facts, use the prover
+					var pv *types.Var
+					for _, fld := range u.Decl.Type.Params.List {
+						for _, nm := range fld.Names {
+							pv, _ = info.Defs[nm].(*types.Var)
+						}
+					}
+					if pv != nil {
+						atom := "len(" + varID(pv) + ")"
+						if fs.proveLin(linAtom(atom)) {
+							empty = true
+						}
+					}
+					if empty {
+						c.r.ok("R40", key, m.pos(rs.Pos()), "All() for the empty prefix only (len(p) == 0 dominates)", props...)
+					} else {
+						c.r.bad("R40", key, m.pos(rs.Pos()), "an unfiltered traversal is returned for a non-empty prefix: keys that do not start with it are yielded when the selected subtree is only a superset", props...)
+					}
+				case isCall && isConversion(info, call), !isCall:
+					if _, isLit := ast.Unparen(rs.Results[0]).(*ast.FuncLit); isLit {
+						c.r.ok("R40", key, m.pos(rs.Pos()), "literal sequence", props...)
+					} else {
+						c.r.bad("R40", key, m.pos(rs.Pos()), "Prefix returns something other than the filtering scan", props...)
+					}
+				default:
+					if endsInPanic(info, []ast.Stmt{&ast.ExprStmt{X: rs.Results[0]}}) {
+						continue
+					}
+					c.r.bad("R40", key, m.pos(rs.Pos()), "Prefix returns "+name+"(…) instead of the filtering scan: the selected subtree is a superset of the matches and must be filtered", props...)
+				}
+			}
+		}
+		if n == 0 {
+			// kinds without prefix support panic
+			c.r.ok("R40", tk.Name+".Prefix not offered", m.pos(u.Decl.Pos()), "panics (no prefix scan for this key kind)", props...)
+		}
+	}
+}
